@@ -12,6 +12,14 @@ R17.1 every variable-amount shift of a representation (calls of Shr::shr / Shl::
 R17.2 every built-in arithmetic operation and every narrowing cast in prefix.rs and to_right is justified by its operand types
       alone: `small literal + (u8 widened to u32/usize)`, `leading_zeros() as u8` (at most 128 for the shipped widths);
       anything else is reported as unjustified arithmetic;
+R17.4 the LENGTH clause of longest_common_prefix ("has length min(len a, len b, number of equal leading bits)"): the generic
+      definition and every per-type override are interpreted with all foreign arithmetic as uninterpreted functions and
+      Ord::min / comparisons as ordering facts; on every returning path the length handed to the constructor must be provably
+      (order closure of the path's own facts) <= self's length, <= other's length and <= leading_zeros(x ^ y) of the two
+      representations, and equal to one of the three.  (That the representation part is correct, symmetry and coverage are
+      NOT decided.)
+R17.5 from_repr_len(r, l) hands exactly `l` to the constructor (tuple type: stores l where prefix_len() reads it, r where
+      repr() reads it).
 R17.3 no shipped impl overrides Prefix::eq; the default eq consults only mask() and prefix_len(); the default zero() is
       from_repr_len(zero, 0); the default contains() compares the lengths before masking.
 """
@@ -27,6 +35,8 @@ WIDTH_CALLS = ("count_zeros", "BITS", "size_of", "leading_zeros")
 def declare(rep):
     rep.rule("R17.1", "variable shifts are checked or guarded by a comparison of the amount with the bit width")
     rep.rule("R17.2", "arithmetic and narrowing casts in prefix.rs / to_right justified by operand types")
+    rep.rule("R17.4", "longest_common_prefix: on every path the constructed length is min(len self, len other, leading_zeros(xor)) by the path's own ordering facts")
+    rep.rule("R17.5", "from_repr_len passes its length (and, for the tuple type, its representation) through unchanged")
     rep.rule("R17.3", "Prefix::eq not overridden and reads only mask/prefix_len; zero() and contains() defaults have the boundary shape")
 
 
@@ -119,6 +129,8 @@ def run_config(ctx, rep, cfg, F):
                     else:
                         rep.bad("R17.2", bshort, "narrowing-cast-%s-%s" % (src, dst), "%s (line %s): narrowing cast %s as %s of a value that is not a "
                                 "leading_zeros() count" % (bshort, n.get("line"), src, dst), config=cfg)
+    check_lcp(ctx, rep, cfg, F)
+    check_from_repr_len(ctx, rep, cfg, F)
     rep.floor("shifts examined (%s)" % cfg, n_shift, 1)
     rep.floor("arithmetic operations examined (%s)" % cfg, n_arith, 1)
     rep.floor("narrowing casts examined (%s)" % cfg, n_cast, 1 if cfg != "f:none" and cfg != "no-default" else 1)
@@ -165,6 +177,284 @@ def run_config(ctx, rep, cfg, F):
         else:
             rep.bad("R17.3", "Prefix::contains", "shape", "the default Prefix::contains does not start by rejecting a longer self "
                     "(comparison of the two prefix_len() with an early return)", config=cfg)
+
+
+# ---------------------------------------------------------------- R17.4 / R17.5: uninterpreted-function evaluation + order facts
+CMP = ("Eq", "Ne", "Lt", "Le", "Gt", "Ge")
+
+
+def term(it, v):
+    from ..absint import RefV
+    v = it.val_force(v)
+    while isinstance(v, RefV):
+        v = v.cell.value
+    return repr(v).replace("?", "")
+
+
+def euf_hooks(F, out_s):
+    """call / binop hooks: foreign scalar functions are uninterpreted functions of their arguments (deterministic names),
+    Ord::min and comparisons become ordering facts, calls producing the prefix type from a u8 are recorded as constructions"""
+    from ..absint import SymV, IntV, LinV, BoolV
+    from .. import models
+
+    def scalar(ty):
+        return ty is not None and F.types[ty]["t"] in ("prim", "param", "alias")
+
+    def call(it, callee, fnref, args, n, fr):
+        last = callee.rsplit("::", 1)[-1]
+        if last == "min" and ("cmp::Ord::min" in callee or callee.endswith("cmp::min")) and len(args) == 2:
+            x, y = it.val_force(args[0]), it.val_force(args[1])
+            tx, ty = term(it, x), term(it, y)
+            if tx == ty:
+                return x
+            first = it.choose("min:%s|%s" % (tx, ty), [True, False])
+            it.emit("order", lo=tx if first else ty, hi=ty if first else tx, strict=not first)
+            return x if first else y
+        cty = n.get("ty")
+        cts = F.types[cty]["s"] if cty is not None else ""
+        anodes = n.get("args") or []
+        u8 = [i for i, a in enumerate(anodes) if F.types[a["ty"]]["s"] == "u8"]
+        is_acc = last in ("repr", "mask", "prefix_len")
+        if out_s in cts.replace("&", " ").replace("<", " ").replace(">", " ").replace(",", " ").split() and len(u8) == 1 and not is_acc and len(args) >= 2:
+            it.emit("construct", callee=callee, len=term(it, args[u8[0]]), others=[term(it, a) for i, a in enumerate(args) if i != u8[0]])
+            if callee not in F.bodies and callee.startswith("prefix_trie::prefix::Prefix::"):
+                return SymV("constructed(%s)" % ", ".join(term(it, a) for a in args), cty)
+        if callee in F.bodies:
+            return NotImplemented
+        if models.lookup(it, callee, fnref) is not None:
+            return NotImplemented
+        if scalar(cty) or (cty is not None and F.types[cty]["t"] == "adt" and not cts.startswith(("std::option::Option", "std::result::Result", "core::option", "core::result", "Option<", "Result<"))):
+            nm = "%s(%s)" % (last, ", ".join(term(it, a) for a in args))
+            it.emit("term", name=nm, op=last, args=[term(it, a) for a in args])
+            return SymV(nm, cty)
+        return NotImplemented
+
+    def binop(it, op, l, r, n):
+        sc = (SymV, IntV, LinV)
+        if not (isinstance(l, sc) and isinstance(r, sc)) or (isinstance(l, IntV) and isinstance(r, IntV)):
+            return None
+        if op in CMP:
+            res = it.choose("bool:(%r %s %r)" % (l, op, r), [False, True])
+            it.emit("cmp", l=repr(l), r=repr(r), op=op, res=res)
+            return BoolV(res)
+        if op in ("BitXor", "BitAnd", "BitOr"):
+            nm = "(%r %s %r)" % (l, op, r)
+            it.emit("term", name=nm, op=op.lower(), args=[repr(l), repr(r)])
+            return SymV(nm, n["ty"] if n else None)
+        return None
+    return {"call": call, "binop": binop}
+
+
+class Order:
+    """<= closure over the ordering facts of one path"""
+
+    def __init__(self, p):
+        self.le = {}
+        self.lt = set()
+        self.terms = {}
+        for e in p.events:
+            if e.kind == "order":
+                self.add(e["lo"], e["hi"], e["strict"])
+            elif e.kind == "term":
+                self.terms[e["name"]] = (e["op"], list(e["args"]))
+            elif e.kind == "cmp":
+                a, b, op, res = e["l"], e["r"], e["op"], e["res"]
+                if not res:
+                    op = {"Eq": "Ne", "Ne": "Eq", "Lt": "Ge", "Le": "Gt", "Gt": "Le", "Ge": "Lt"}[op]
+                if op == "Eq":
+                    self.add(a, b, False)
+                    self.add(b, a, False)
+                elif op == "Lt":
+                    self.add(a, b, True)
+                elif op == "Le":
+                    self.add(a, b, False)
+                elif op == "Gt":
+                    self.add(b, a, True)
+                elif op == "Ge":
+                    self.add(b, a, False)
+
+    @staticmethod
+    def strip(t):
+        # a widening / narrowing cast does not change the number (R17.2 bounds the narrowing ones)
+        while t.startswith("(") and " as " in t and t.endswith(")") and t.rsplit(" as ", 1)[1][:-1].replace("usize", "u").lstrip("ui").isdigit() | (t.rsplit(" as ", 1)[1][:-1] in ("usize", "u8", "u16", "u32", "u64", "u128")):
+            t = t[1:].rsplit(" as ", 1)[0]
+        return t
+
+    def add(self, a, b, strict):
+        a, b = self.strip(a), self.strip(b)
+        self.le.setdefault(a, set()).add(b)
+        if strict:
+            self.lt.add((a, b))
+
+    def leq(self, a, b):
+        a, b = self.strip(a), self.strip(b)
+        seen, todo = {a}, [a]
+        while todo:
+            x = todo.pop()
+            if x == b:
+                return True
+            for y in self.le.get(x, ()):
+                if y not in seen:
+                    seen.add(y)
+                    todo.append(y)
+        return False
+
+    def equal(self, a, b):
+        return self.leq(a, b) and self.leq(b, a)
+
+    def consistent(self):
+        return not any(self.leq(b, a) for a, b in self.lt)
+
+    def struct(self, t):
+        return self.terms.get(self.strip(t))
+
+
+def accessor_terms(F, impl_short, which, hooks):
+    """the term an impl's accessor evaluates to on `*self` (None for the generic definition)"""
+    from ..absint import explore, default_args
+    short = "<%s as Prefix>::%s" % (impl_short, which)
+    if short not in F.short:
+        return set()
+    out = set()
+    for p in explore(F, F.short[short], default_args(F, F.short[short]), {"loop_bound": 1, "hooks": hooks}, max_paths=200):
+        if p.result[0] == "ret":
+            out.add(Order.strip(repr(p.result[1]).replace("?", "")))
+    return out
+
+
+def check_lcp(ctx, rep, cfg, F):
+    from ..absint import explore, default_args
+    targets = [("Prefix::longest_common_prefix", None)]
+    for s_ in F.short:
+        if s_.startswith("<") and s_.endswith(" as Prefix>::longest_common_prefix"):
+            targets.append((s_, s_[1:].split(" as Prefix>")[0]))
+    n_paths = 0
+    for short, impl in targets:
+        if short not in F.short:
+            rep.bad("R17.4", short, "missing", "%s not found" % short, kind="unrecognised", config=cfg)
+            continue
+        path = F.short[short]
+        out_s = F.types[F.fns[path]["output"]]["s"]
+        hooks = euf_hooks(F, out_s)
+        lens = {"self": {"prefix_len(*self)"}, "other": {"prefix_len(*other)"}}
+        reprs = {"self": {"repr(*self)", "mask(*self)"}, "other": {"repr(*other)", "mask(*other)"}}
+        if impl:
+            for t in accessor_terms(F, impl, "prefix_len", hooks):
+                lens["self"].add(t)
+                lens["other"].add(t.replace("*self", "*other"))
+            for w in ("repr", "mask"):
+                for t in accessor_terms(F, impl, w, hooks):
+                    reprs["self"].add(t)
+                    reprs["other"].add(t.replace("*self", "*other"))
+        b = F.bodies[path]
+        pn = [q["pat"]["name"] for q in b["thir"]["params"] if q.get("pat") and q["pat"]["k"] == "Bind"]
+        if pn != ["self", "other"]:
+            ren = dict(zip(pn, ["self", "other"]))
+            lens = {k: {t.replace("*" + k, "*" + [a for a, c in ren.items() if c == k][0]) for t in v} for k, v in lens.items()} if len(pn) == 2 else lens
+            reprs = {k: {t.replace("*" + k, "*" + [a for a, c in ren.items() if c == k][0]) for t in v} for k, v in reprs.items()} if len(pn) == 2 else reprs
+        paths = explore(F, path, default_args(F, path), {"loop_bound": 1, "hooks": hooks}, max_paths=2000)
+        C.report_unrecognised(rep, "R17.4", short, paths, F)
+        for p in paths:
+            if p.result[0] != "ret":
+                continue        # panics of foreign constructors: assumption "accept len <= width" (see ASSUMES); C20 owns panics
+            O = Order(p)
+            if not O.consistent():
+                continue
+            n_paths += 1
+            cons = [e for e in p.events if e.kind == "construct"]
+            rv = repr(p.result[1]).replace("?", "")
+            if cons:
+                L = cons[-1]["len"]
+            elif rv in ("*self", "*other", "clone(*self)", "clone(*other)"):
+                L = sorted(lens["self" if "self" in rv else "other"])[0]
+            else:
+                rep.bad("R17.4", short, "unjustified:no-construction", "%s returns %s on a path on which no prefix is constructed from a length: "
+                        "the length of the result cannot be related to the operands (inputs: %s)" % (short, rv[:80], C.inputs_str(p, 8)), kind="unrecognised", config=cfg)
+                continue
+
+            def is_lz(t):
+                st = O.struct(t)
+                if not st or st[0] != "leading_zeros":
+                    return False
+                x = O.struct(st[1][0])
+                if not x or x[0] != "bitxor" or len(x[1]) != 2:
+                    return False
+                a, b_ = (Order.strip(q) for q in x[1])
+                return (a in reprs["self"] and b_ in reprs["other"]) or (a in reprs["other"] and b_ in reprs["self"])
+            lz = {t for t in O.terms if is_lz(t)}
+            # equal representations: every leading bit is equal
+            same = any(O.equal(a, b_) for a in reprs["self"] for b_ in reprs["other"])
+            miss = []
+            if not any(O.leq(L, t) for t in lens["self"]):
+                miss.append("<= self.prefix_len()")
+            if not any(O.leq(L, t) for t in lens["other"]):
+                miss.append("<= other.prefix_len()")
+            if not (any(O.leq(L, t) for t in lz) or same):
+                miss.append("<= number of equal leading bits (leading_zeros of the xor of the two representations)")
+            if not any(O.equal(L, t) for t in lens["self"] | lens["other"] | lz):
+                miss.append("equal to one of the three")
+            if miss:
+                rep.bad("R17.4", short, "length-not-min:" + ";".join(m.split(" (")[0] for m in miss),
+                        "%s constructs a prefix of length `%s` on a path whose facts do not establish that this length is %s — the length of "
+                        "longest_common_prefix must be min(len self, len other, equal leading bits) (path facts: %s)"
+                        % (short, L[:70], " and ".join(miss), "; ".join("%s %s %s" % (e["lo"][:40], "<" if e["strict"] else "<=", e["hi"][:40]) for e in p.events if e.kind == "order")
+                           + " | " + "; ".join("%s %s %s=%s" % (e["l"][:30], e["op"], e["r"][:30], e["res"]) for e in p.events if e.kind == "cmp")[:300]), config=cfg)
+            else:
+                rep.ok("R17.4", short, "length is the minimum", sample={"fn": short, "length": L, "lz_terms": sorted(lz)[:2]})
+    rep.floor("longest_common_prefix paths checked (%s)" % cfg, n_paths, 3)
+
+
+def check_from_repr_len(ctx, rep, cfg, F):
+    from ..absint import explore, default_args, TupleV
+    n = 0
+    for s_ in list(F.short):
+        if not (s_.startswith("<") and s_.endswith(" as Prefix>::from_repr_len")):
+            continue
+        impl = s_[1:].split(" as Prefix>")[0]
+        path = F.short[s_]
+        out_s = F.types[F.fns[path]["output"]]["s"]
+        hooks = euf_hooks(F, out_s)
+        b = F.bodies[path]
+        pn = [q["pat"]["name"] for q in b["thir"]["params"] if q.get("pat") and q["pat"]["k"] == "Bind"]
+        ptys = [F.types[q["ty"]]["s"] for q in b["thir"]["params"] if q.get("pat")]
+        if len(pn) != 2 or ptys[1] != "u8":
+            rep.bad("R17.5", s_, "shape", "%s: parameters %s %s not recognised" % (s_, pn, ptys), kind="unrecognised", config=cfg)
+            continue
+        paths = explore(F, path, default_args(F, path), {"loop_bound": 1, "hooks": hooks}, max_paths=500)
+        C.report_unrecognised(rep, "R17.5", s_, paths, F)
+        for p in paths:
+            if p.result[0] != "ret":
+                continue
+            n += 1
+            cons = [e for e in p.events if e.kind == "construct"]
+            v = p.result[1]
+            if cons:
+                if Order.strip(cons[-1]["len"]) == pn[1]:
+                    rep.ok("R17.5", s_, "length passed through")
+                else:
+                    rep.bad("R17.5", s_, "length-changed", "%s builds the prefix with length `%s` instead of its parameter `%s`"
+                            % (s_, cons[-1]["len"][:60], pn[1]), config=cfg)
+            elif isinstance(v, TupleV):
+                def idx_of(which):
+                    ts = accessor_terms(F, impl, which, hooks)
+                    ks = {t.rsplit(".", 1)[1] for t in ts if t.startswith("*self.")}
+                    return int(ks.pop()) if len(ks) == 1 and len(ts) == 1 else None
+                kl, kr = idx_of("prefix_len"), idx_of("repr")
+                got = [term_of_cell(c) for c in v.cells]
+                if kl is None or kr is None:
+                    rep.bad("R17.5", s_, "accessors", "%s: prefix_len()/repr() of %s do not read a component of the tuple" % (s_, impl), kind="unrecognised", config=cfg)
+                elif got[kl] != pn[1] or got[kr] != pn[0]:
+                    rep.bad("R17.5", s_, "components-swapped", "%s builds %s but prefix_len() reads component %d and repr() component %d: "
+                            "from_repr_len(r, l) must have length l and representation r" % (s_, got, kl, kr), config=cfg)
+                else:
+                    rep.ok("R17.5", s_, "tuple components agree with the accessors", sample={"built": got, "prefix_len reads": kl, "repr reads": kr})
+            else:
+                rep.bad("R17.5", s_, "unjustified", "%s returns %r without a recognisable construction from its length" % (s_, v), kind="unrecognised", config=cfg)
+    rep.floor("from_repr_len paths checked (%s)" % cfg, n, 1)
+
+
+def term_of_cell(c):
+    return repr(c.value).replace("?", "")
 
 
 def finalize(ctx, rep):
